@@ -40,6 +40,14 @@ def parse_bool(value: Any) -> Optional[bool]:
   raise ValueError(f"Invalid boolean value '{value}'. Expect: true or false.")
 
 
+def _parse_log_level(value: Any) -> Optional[str]:
+  """Decoder for the logging level, which is specified by name"""
+  if value is None or isinstance(value, str):
+    return value
+
+  raise ValueError(f"Invalid log_level '{value}'. Expect: \"INFO\", \"WARN\" or \"ERROR\".")
+
+
 class ModuleConfiguration:
   """Base class for module configurations"""
 
@@ -97,7 +105,7 @@ class ModuleConfiguration:
 @dataclass
 class GeneralConfiguration(ModuleConfiguration):
   """TT general configuration"""
-  log_level: Optional[str] = "INFO"
+  log_level: Optional[str] = dataclasses.field(default="INFO", metadata={"decoder": _parse_log_level})
   progress_bar: Optional[bool] = dataclasses.field(default=True, metadata={"decoder": parse_bool})
   document_lang: Optional[str] = None
 
